@@ -5,6 +5,8 @@ import (
 	"fmt"
 	"io"
 
+	gojson "github.com/goccy/go-json"
+
 	"github.com/goccy/go-json/verifsim"
 	"vsim/plan"
 )
@@ -117,6 +119,9 @@ func (r *SimReader) Read(p []byte) (n int, err error) {
 			Count("split")
 		}
 	}
+	if d.Reenter {
+		reenterLibrary()
+	}
 	if d.Scribble || r.scribbleAll {
 		if n < len(p) {
 			Count("scribble")
@@ -168,6 +173,24 @@ func (r *SimReader) noteFault(e error) {
 	}
 }
 
+// reenterLibrary: a reader or writer that itself uses go-json (a logging
+// writer, a reader decoding a frame header): nested use of the pooled contexts
+// while an outer call is in progress.
+func reenterLibrary() {
+	Count("io_reenter")
+	b, err := gojson.Marshal(map[string]interface{}{"nested": []interface{}{1, "two", Small{A: 3, B: "<b>", C: true}}})
+	if err != nil || string(b) != `{"nested":[1,"two",{"A":3,"B":"\u003cb\u003e","C":true}]}` {
+		panic(fmt.Sprintf("nested marshal wrong: %s %v", b, err))
+	}
+	var v struct {
+		X []int
+		Y map[string]string
+	}
+	if err := gojson.Unmarshal([]byte(`{"X":[1,2,3],"Y":{"k":"v"}}`), &v); err != nil || len(v.X) != 3 || v.Y["k"] != "v" {
+		panic(fmt.Sprintf("nested unmarshal wrong: %+v %v", v, err))
+	}
+}
+
 // SimWriter records what it is given and may fail.
 type SimWriter struct {
 	Buf    []byte
@@ -187,6 +210,9 @@ func NewSimWriter(w *plan.Writer) *SimWriter {
 func (w *SimWriter) Write(p []byte) (int, error) {
 	verifsim.Yield(seamWrite)
 	w.Writes++
+	if w.w.Reenter {
+		reenterLibrary()
+	}
 	if w.w.FailAt != 0 && w.Writes == w.w.FailAt {
 		if w.w.Short {
 			Count("writer_short")
